@@ -121,13 +121,18 @@ def run_z3(script: str, timeout_s: float = 20, want_model=False, solver=None):
     first = out.strip().split("\n", 1)[0].strip() if out.strip() else "unknown"
     if first not in ("sat", "unsat"):
         first = "unknown"
-    elif "(error" in out:
-        first = "unknown"
+    else:
+        body = out
+        if first == "unsat" and want_model:
+            # (get-model) after unsat reports "model is not available": not an encoding error
+            body = re.sub(r'\(error "line \d+ column \d+: model is not available"\)', "", out)
+        if "(error" in body:
+            first = "unknown"
     STATS[first] += 1
     return first, out
 
 
-_MODEL_RE = re.compile(r"\(define-fun\s+(\|[^|]*\||\S+)\s+\(\)\s+(Real|Bool)\s+(.*?)\)\s*(?=\(define-fun|\)\s*$)", re.S)
+_MODEL_RE = re.compile(r"\(define-fun\s+(\|[^|]*\||\S+)\s+\(\)\s+(Real|Bool|Int)\s+(.*?)\)\s*(?=\(define-fun|\)\s*$)", re.S)
 
 
 def _parse_num(s: str):
